@@ -178,6 +178,71 @@ def through_locals(node, defs, keep=()):
     return T().visit(copy.deepcopy(node))
 
 
+def prop_atoms(e, out=None):
+    """the atoms of a propositional reading of e: everything that is not and / or / not / a conditional expression"""
+    out = [] if out is None else out
+    if isinstance(e, ast.BoolOp):
+        for v in e.values:
+            prop_atoms(v, out)
+    elif isinstance(e, ast.UnaryOp) and isinstance(e.op, ast.Not):
+        prop_atoms(e.operand, out)
+    elif isinstance(e, ast.IfExp):
+        for v in (e.test, e.body, e.orelse):
+            prop_atoms(v, out)
+    elif isinstance(e, ast.Compare) and len(e.ops) == 1 and isinstance(e.ops[0], (ast.NotEq, ast.NotIn, ast.IsNot)):
+        flip = {ast.NotEq: ast.Eq, ast.NotIn: ast.In, ast.IsNot: ast.Is}[type(e.ops[0])]
+        t = ast.unparse(ast.Compare(left=e.left, ops=[flip()], comparators=e.comparators))
+        if t not in out:
+            out.append(t)
+    else:
+        t = ast.unparse(e)
+        if t not in out:
+            out.append(t)
+    return out
+
+
+def prop_value(e, env):
+    if isinstance(e, ast.BoolOp):
+        vals = [prop_value(v, env) for v in e.values]
+        return all(vals) if isinstance(e.op, ast.And) else any(vals)
+    if isinstance(e, ast.UnaryOp) and isinstance(e.op, ast.Not):
+        return not prop_value(e.operand, env)
+    if isinstance(e, ast.IfExp):
+        return prop_value(e.body, env) if prop_value(e.test, env) else prop_value(e.orelse, env)
+    if isinstance(e, ast.Compare) and len(e.ops) == 1 and isinstance(e.ops[0], (ast.NotEq, ast.NotIn, ast.IsNot)):
+        flip = {ast.NotEq: ast.Eq, ast.NotIn: ast.In, ast.IsNot: ast.Is}[type(e.ops[0])]
+        return not env[ast.unparse(ast.Compare(left=e.left, ops=[flip()], comparators=e.comparators))]
+    return env[ast.unparse(e)]
+
+
+def prop_equal(a, b, constraint=None, max_atoms=8):
+    """a and b (expressions, or source text) have the same truth value under every assignment of their atoms that satisfies
+    `constraint` (a predicate on the assignment): decides whether two filters keep the same elements however they are written"""
+    import itertools
+    a = ast.parse(a, mode='eval').body if isinstance(a, str) else a
+    b = ast.parse(b, mode='eval').body if isinstance(b, str) else b
+    atoms = prop_atoms(b, prop_atoms(a))
+    if len(atoms) > max_atoms:
+        return False
+    for vals in itertools.product((False, True), repeat=len(atoms)):
+        env = dict(zip(atoms, vals))
+        if constraint is not None and not constraint(env):
+            continue
+        if bool(prop_value(a, env)) != bool(prop_value(b, env)):
+            return False
+    return True
+
+
+def rename_vars(e, mapping):
+    """a copy of expression e with names renamed (comprehension variables to role names)"""
+    import copy
+
+    class R(ast.NodeTransformer):
+        def visit_Name(self, n):
+            return ast.copy_location(ast.Name(id=mapping.get(n.id, n.id), ctx=n.ctx), n)
+    return R().visit(copy.deepcopy(e))
+
+
 def is_none(e):
     return isinstance(e, ast.Constant) and e.value is None
 
